@@ -13,6 +13,7 @@ for p in parts[1:]:
     except Exception as e:
         print(rest[:1500]); continue
     for k,v in j.items():
+        if k in ('explicit_witness','instrumented_wat') and '--all' not in sys.argv: continue
         if k=='base_wat':
             if '--wat' in sys.argv: print(v)
             continue
